@@ -21,7 +21,7 @@ package types
 //verif:obligation fn=VerifC04Block args=0,1;1,1;1,2;1,3 maps=lazy timeout=600000 secs=3600 validate=10
 //verif:obligation fn=VerifC04Block args=2,3 tier=thorough maps=lazy timeout=600000 secs=6000
 //verif:obligation fn=VerifC04Text args=0;1 maps=lazy idx=ite timeout=600000 secs=3600 validate=10
-//verif:obligation fn=VerifC04Text args=2 tier=thorough maps=lazy idx=ite timeout=600000 secs=6000
+//verif:obligation fn=VerifC04Text args=2 maps=lazy idx=ite pool=reuse timeout=600000 secs=3600
 
 import (
 	"bytes"
